@@ -631,7 +631,18 @@ fn sel_l_profile(index: u64) -> Profile {
 }
 
 fn sel_l_post(plan: &mut LPlan, seed: u64) {
+    use crate::lsim::plan::{Action, TimedAction};
     c04_post(plan, seed);
+    // one run in three: a reload inside the traffic that drops one link (often a low-index one)
+    // and keeps the others, so that the survivors' positions shift under the hysteresis anchor
+    let mut r = crate::prng::Rng::new(seed ^ 0x5E11);
+    if plan.n_links >= 3 && r.chance(0.33) {
+        let (lo, hi) = traffic_window(plan);
+        let drop = if r.chance(0.6) { 0 } else { r.below(plan.n_links as u64) as usize };
+        let text: String = (0..plan.n_links).filter(|l| *l != drop).map(|l| format!("{}\n", crate::lsim::path_ip(l))).collect();
+        plan.actions.push(TimedAction { t: r.range(lo + 500, hi.max(lo + 501)), kind: Action::Reload { text: Some(text) } });
+        plan.actions.sort_by_key(|a| a.t);
+    }
 }
 
 fn c03l_post(plan: &mut LPlan, seed: u64) {
